@@ -11,18 +11,81 @@ SCALED_T = ["prod", "s40", "s64", "s17"]
 
 PROPS = {
     "C01": {
-        "theorems": ["MlaModel.Theorems.C01"],
-        "required": [],
+        "theorems": ["MlaModel.Theorems.C01", "MlaModel.Theorems.C01Compress", "MlaModel.Theorems.C11Encrypt"],
+        "required": ["MlaModel.C01.blocks", "MlaModel.C01.archive", "MlaModel.C01.roundtrip", "MlaModel.C01.compress_wellformed", "MlaModel.C11.open_seal"],
         "configs": SCALED, "configs_thorough": SCALED_T,
         "rule": "corpus (one case per repaired defect) + exhaustive alignment sweeps at scaled constants + random valid op sequences from a boundary-biased generator; a case is non-trivial when it has >= 2 files, interleaved appends, or crosses a chunk/block boundary; distinct = distinct hash of the canonical case",
-        "strength": "full over the model (compression modulo Codec laws)",
+        "strength": "full over the model (compression modulo Codec.Laws; Codec.stored proved to satisfy them)",
         "assumptions": ["SHA-256, AES-GCM, X25519, HKDF, brotli are parameters of the model (Prims/Codec), validated against reference crates"],
     },
+    "C02": {
+        "theorems": ["MlaModel.Theorems.C02", "MlaModel.Theorems.EncryptFailSafe", "MlaModel.Theorems.CompressFailSafe"],
+        "required": ["MlaModel.C02.accepted", "MlaModel.C02.readable", "MlaModel.C02.sound", "MlaModel.C02.eoad_complete", "MlaModel.EncFS.unauth_prefix_safe", "MlaModel.EncFS.auth_prefix_safe", "MlaModel.CompFS.L2_prefix_safe"],
+        "configs": SCALED, "configs_thorough": SCALED_T,
+        "rule": "every truncation length of every generated archive at scaled constants (4 layer combinations, both modes), windows around every structural boundary at production constants; non-trivial = the cut lies after the header and before the end; distinct = (archive, cut, mode)",
+        "strength": "full: repair loop sound for every delivered prefix (C02.sound/accepted/readable/eoad_complete) + layer prefix-safety (L2) for encryption and compression (modulo Codec.Laws)",
+    },
+    "C03": {
+        "theorems": ["MlaModel.Theorems.C11Encrypt"],
+        "required": ["MlaModel.C11.EncRd.isCursor", "MlaModel.C11.CompRd.isCursor"],
+        "configs": ["prod", "s40"], "configs_thorough": SCALED_T,
+        "rule": "every single-bit flip of every byte after the magic (scaled; one bit per byte quick, all bits thorough), windowed + sampled flips at production constants, chunk swap/duplicate/delete/splice/drop-tail, header-field edits, three read orders; non-trivial = the edit changes the archive",
+        "strength": "finding D14 (whole-chunk truncation with a planted footer); layer-level statement under INT-CTXT in progress",
+    },
+    "C04": {
+        "theorems": ["MlaModel.Theorems.EncryptFailSafe"],
+        "required": ["MlaModel.EncFS.auth_prefix_unauth", "MlaModel.EncFS.read_empty_sticky"],
+        "configs": ["prod", "s40"], "configs_thorough": SCALED_T,
+        "rule": "a bit flip in every byte after the header (1 in 3 quick, all thorough) and a truncation inside every chunk, of generated and adversarially aligned encrypted archives; both modes; non-trivial = all",
+        "strength": "finding D15 (chunk 0 never authenticated); authenticated ⊑ unauthenticated proved for all inputs",
+    },
+    "C05": {
+        "theorems": ["MlaModel.Theorems.C05", "MlaModel.Theorems.EncryptFailSafe", "MlaModel.Theorems.CompressFailSafe"],
+        "required": ["MlaModel.C05.complete", "MlaModel.C05.mono", "MlaModel.C05.exact", "MlaModel.EncFS.unauth_complete", "MlaModel.EncFS.unauth_mono", "MlaModel.CompFS.L3_complete", "MlaModel.CompFS.L4_mono"],
+        "configs": SCALED, "configs_thorough": SCALED_T,
+        "rule": "as C02, plus completeness at the full length and monotonicity along the whole chain of cuts",
+        "strength": "full: C05.complete/mono/exact over the repair loop + layer completeness/monotonicity (L3, L4); authenticated-mode monotonicity under the NoForge hypothesis",
+    },
     "C09": {
-        "theorems": ["MlaModel.Theorems.C09"],
-        "required": ["MlaModel.C09.refused_noop", "MlaModel.C09.erase", "MlaModel.C09.short_source"],
+        "theorems": ["MlaModel.Theorems.C09", "MlaModel.Theorems.C01"],
+        "required": ["MlaModel.C09.refused_noop", "MlaModel.C09.erase", "MlaModel.C09.short_source", "MlaModel.C01.roundtrip"],
         "configs": ["prod"],
         "rule": "all call sequences up to length 3 (quick) / 4 sampled 1:4 (thorough) over a 25-symbol alphabet {start(fresh|dup|empty|65536|65537), append(open|ended|never x exact|short|long|0), end(open|ended|never), add(fresh|dup|short), flush, finalize} + sampled sequences of length 5..40; non-trivial = contains a refused or failing call",
         "strength": "full",
+    },
+    "C10": {
+        "theorems": ["MlaModel.Theorems.C01"],
+        "required": ["MlaModel.C01.blocks"],
+        "configs": ["prod", "s40"], "configs_thorough": SCALED_T,
+        "rule": "generated archives (interleaved files over several chunks and blocks) x generated histories of list/open/read(buffer sizes 0,1,2,3,5,7,chunk,block,>file)/abandon/hash/size; non-trivial = history longer than 3 ops",
+        "strength": "history theorem over a generic cursor-like stream in progress",
+    },
+    "C11": {
+        "theorems": ["MlaModel.Theorems.C11Encrypt", "MlaModel.Theorems.C11Compress", "MlaModel.Theorems.CodecStored"],
+        "required": ["MlaModel.C11.EncRd.isCursor", "MlaModel.C11.CompRd.isCursor"],
+        "configs": SCALED, "configs_thorough": SCALED_T,
+        "rule": "every plaintext length 0..3*chunk+20 / 0..3*block+5 at scaled constants x a generated 12-op seek/read history with targets in [0,len], random longer histories; boundary residues at production constants; non-trivial = length at a chunk/block boundary residue, below one tag, above one chunk/block, or a non-zero start offset",
+        "strength": "full: raw (any offset), encryption and compression readers proved cursor-like over ANY cursor-like inner stream, hence every stacking",
+    },
+    "C12": {
+        "theorems": ["MlaModel.Theorems.C12"],
+        "required": ["MlaModel.C12.eq", "MlaModel.C12.trunc"],
+        "configs": ["prod", "s40"],
+        "rule": "generated archives x subsets {none, all, each of two singles, random, a foreign name} with sinks accepting writes in random pieces; block streams cut before the end marker with the footer kept (no layers); non-trivial = non-empty choice over >= 2 files, or a truncated stream",
+        "strength": "full",
+    },
+    "C13": {
+        "theorems": ["MlaModel.Theorems.EncryptFailSafe"],
+        "required": ["MlaModel.EncFS.deliver_schedule_independent"],
+        "configs": ["prod"],
+        "rule": "generated archives x 5 transfer schedules (all, 1 byte, random, one-then-all, random with Interrupted) for destination, source of the normal reader and source of repair (intact + one cut, both modes); non-trivial = schedule other than 'all'",
+        "strength": "schedule independence of the fail-safe decryptor proved; IoSched model in progress",
+    },
+    "C14": {
+        "theorems": ["MlaModel.Theorems.C01Compress", "MlaModel.Theorems.EncryptFailSafe", "MlaModel.Theorems.CompressFailSafe"],
+        "required": ["MlaModel.C14.compress_flush_decodable", "MlaModel.EncFS.online_unauth", "MlaModel.EncFS.online_auth", "MlaModel.CompFS.L5_flush"],
+        "configs": ["prod"],
+        "rule": "op sequences with flushes at random points x 4 layer combinations x levels x entropy classes incl. 200 000 equal bytes; at every flush the destination prefix is repaired (both modes when encrypted); non-trivial = something was appended before the flush",
+        "strength": "per-layer flush laws (L5) proved; composition with the repair loop in progress",
     },
 }
